@@ -121,7 +121,12 @@ func (tran) NewListener(addr string, sock mangos.Socket) (transport.Listener, er
 	l := L(name(addr))
 	l.mu.Lock()
 	l.proto = sock.Info()
+	d := l.NewDelay
+	l.created++
 	l.mu.Unlock()
+	if d > 0 {
+		time.Sleep(d) // a slow transport constructor (widens races between NewListener and Close)
+	}
 	return &tlistener{ctl: l, addr: addr}, nil
 }
 
@@ -347,6 +352,8 @@ type ListenerCtl struct {
 	closed    bool
 	pipes     []*Pipe
 	ListenErr error // returned by the next Listen calls while non-nil
+	NewDelay  time.Duration // how long the transport's NewListener takes
+	created   int
 	maxrx     int
 	accepts   int
 	optLog    []string
@@ -381,6 +388,9 @@ func (l *ListenerCtl) State() (listening, closed bool, accepts int) {
 
 // Proto returns the protocol info of the socket that created the endpoint.
 func (l *ListenerCtl) Proto() mangos.ProtocolInfo { l.mu.Lock(); defer l.mu.Unlock(); return l.proto }
+
+// SetNewDelay makes the transport's NewListener for this endpoint take d.
+func (l *ListenerCtl) SetNewDelay(d time.Duration) { l.mu.Lock(); l.NewDelay = d; l.mu.Unlock() }
 
 // SetListenErr scripts Listen failures.
 func (l *ListenerCtl) SetListenErr(err error) { l.mu.Lock(); l.ListenErr = err; l.mu.Unlock() }
